@@ -1,8 +1,10 @@
 (** C14 — JSON output is always one valid JSON object per line and faithful to the data.
     Statements only; proofs in Fmt/JsonProofs{Render,Parse,Map,Record}.v over the executable model Fmt/JsonModel.v.
-    [repo_cfg] takes its two switches from TVGen.Gen_json, which translators/json_fmt.py regenerates from /repo's json.rs on
-    every run: fx10 / fx141 are false while the source has the shape of findings F10 / F141 and become true by themselves
-    when the repaired shape is recognised, so the hypotheses below that mention them fall away without editing this file.
+    [repo_cfg_of lg] takes its two switches from TVGen.Gen_json, which translators/json_fmt.py regenerates from /repo's
+    json.rs on every run: fx10 / fx141 are false when the source has the shape of findings F10 / F141 and true when the
+    repaired shape is recognised.  Both are repaired in /repo (7519e35, c6c3a37), so the headline statements carry no
+    hypothesis about them and are proved by computing the switches: on a tree where a repair is reverted these proofs fail
+    (and the oracle exhibits the failing history).  [lg] = the build has tracing-subscriber's `tracing-log` feature.
 
     Labels: everything here is proved for ALL strings / trees / histories / option combinations.  PARTIAL: the text of
     finite floats (serde_json's shortest round-trip printer) is not modelled — [C14_parse_render] and the stored-string
@@ -91,19 +93,33 @@ Proof. exact record_lookup. Qed.
 Print Assumptions C14_record_lookup.
 
 (** ** Span fields after ANY number of record steps: the map is one visit of all writes in order, so every key holds the
-    mapped image of the last value recorded under it.  Known finding F141 (while fx141 = false): keys that need a JSON
-    escape are excluded, and refuted below. *)
-Theorem C14_fields_faithful_span : forall init recs k,
-  (fx141 repo_cfg = false -> Forall plain_key (init ++ concat recs)) ->
-  fields_after repo_cfg init recs = visit_span [] (init ++ concat recs) /\
-  lookup k (fields_after repo_cfg init recs) = last_write k (init ++ concat recs) None.
+    mapped image of the last value recorded under it — for every field-name form, in both builds.  (Finding F141, repaired
+    in /repo by c6c3a37: while add_fields re-parsed into borrowed keys, a key that needs a JSON escape lost every later
+    record.  The statement below has no hypothesis because the translator finds the owned-key shape in the source
+    (fx141 (repo_cfg_of lg) computes to true); on a tree without the repair this proof fails and the oracle produces the
+    failing history.  [C14_fields_faithful_span_any_cfg] is the statement for either variant, [C14_F141_refuted] the
+    witness for the unrepaired one.) *)
+Theorem C14_fields_faithful_span : forall lg init recs k,
+  fields_after (repo_cfg_of lg) init recs = visit_span [] (init ++ concat recs) /\
+  lookup k (fields_after (repo_cfg_of lg) init recs) = last_write k (init ++ concat recs) None.
 Proof.
-  intros init recs k H.
-  assert (H' : fx141 repo_cfg = true \/ Forall plain_key (init ++ concat recs))
-    by (destruct (fx141 repo_cfg); [left; reflexivity | right; apply H; reflexivity]).
-  split; [exact (fields_after_fold repo_cfg init recs H') | exact (fields_after_faithful repo_cfg init recs k H')].
+  intros lg init recs k.
+  assert (H' : fx141 (repo_cfg_of lg) = true \/ Forall plain_key (init ++ concat recs)) by (left; reflexivity).
+  split; [exact (fields_after_fold (repo_cfg_of lg) init recs H') | exact (fields_after_faithful (repo_cfg_of lg) init recs k H')].
 Qed.
 Print Assumptions C14_fields_faithful_span.
+
+Theorem C14_fields_faithful_span_any_cfg : forall c init recs k,
+  (fx141 c = false -> Forall plain_key (init ++ concat recs)) ->
+  fields_after c init recs = visit_span [] (init ++ concat recs) /\
+  lookup k (fields_after c init recs) = last_write k (init ++ concat recs) None.
+Proof.
+  intros c init recs k H.
+  assert (H' : fx141 c = true \/ Forall plain_key (init ++ concat recs))
+    by (destruct (fx141 c); [left; reflexivity | right; apply H; reflexivity]).
+  split; [exact (fields_after_fold c init recs H') | exact (fields_after_faithful c init recs k H')].
+Qed.
+Print Assumptions C14_fields_faithful_span_any_cfg.
 
 Theorem C14_last_write_spec : forall k n v before later,
   Forall (fun kv => span_key (fst kv) (snd kv) <> k) later -> span_key n v = k ->
@@ -118,12 +134,40 @@ Theorem C14_F141_refuted : forall c, fx141 c = false ->
 Proof. exact F141_refuted. Qed.
 Print Assumptions C14_F141_refuted.
 
-(** the fields of a span in the state reached by ANY history are [fields_after] of its creation and its later records *)
+(** the fields of a live span in the state reached by ANY history (creations, records, enters, exits, closes, events) are
+    [fields_after] of its creation and its later records; [hist_of] lists those writes in order ([eff]: all of them,
+    except — in a build with the `tracing-log` feature — `log.*` names recorded through Debug/Display) *)
 Theorem C14_history_fields : forall c ops i s,
   find_span i (spans (state_after c ops)) = Some s ->
-  exists init recs, hist_of i ops = Some (init, recs) /\ sp_fields s = fields_after c init recs.
+  exists init recs, hist_of c i ops = Some (init, recs) /\ sp_fields s = fields_after c init recs.
 Proof. exact history_fields. Qed.
 Print Assumptions C14_history_fields.
+
+Theorem C14_history_inv : forall c ops i,
+  match hist_of c i ops with
+  | Some (init, recs) =>
+      exists s, find_span i (spans (state_after c ops)) = Some s /\ sp_fields s = fields_after c init recs
+  | None => find_span i (spans (state_after c ops)) = None
+  end.
+Proof. exact history_inv. Qed.
+Print Assumptions C14_history_inv.
+
+Theorem C14_closed_span_gone : forall c ops i busy idle,
+  find_span i (spans (state_after c (ops ++ [OClose i busy idle]))) = None.
+Proof. exact closed_span_gone. Qed.
+Print Assumptions C14_closed_span_gone.
+
+(** which writes reach the map: all of them without the `tracing-log` feature; with it, all but `log.*` names whose
+    value arrives through record_debug (documented exclusion: those names are tracing-log's own metadata) *)
+Theorem C14_effective_writes : forall c vals kv,
+  (In kv (eff c vals) <-> In kv vals /\ log_skipped c kv = false) /\
+  (feat_log c = false -> eff c vals = vals) /\
+  (via_debug (snd kv) = false -> log_skipped c kv = false) /\
+  (has_prefix (bs "log.") (fst kv) = false -> log_skipped c kv = false).
+Proof.
+  intros c vals [k v]. split; [apply eff_in|]. split; [apply eff_nolog|]. split; [apply log_skipped_typed | apply log_skipped_prefix].
+Qed.
+Print Assumptions C14_effective_writes.
 
 (** the code keeps the fields as a serialised string: parse - merge - re-serialise refines the tree-level step, for any
     number of steps, and SerializableSpan's re-parse gives back the span object (float-free values: PARTIAL on floats) *)
@@ -133,10 +177,10 @@ Theorem C14_stored_string_refines : forall c init recs,
 Proof. exact stored_after_refines. Qed.
 Print Assumptions C14_stored_string_refines.
 
-Theorem C14_span_object_refines : forall c name parent init recs,
+Theorem C14_span_object_refines : forall c m parent init recs,
   float_free init -> Forall float_free recs ->
-  span_obj_bytes name (stored_after c init recs) =
-  Some (span_obj {| sp_name := name; sp_parent := parent; sp_fields := fields_after c init recs |}).
+  span_obj_bytes (sm_name m) (stored_after c init recs) =
+  Some (span_obj {| sp_meta := m; sp_parent := parent; sp_fields := fields_after c init recs |}).
 Proof. exact span_obj_bytes_refines. Qed.
 Print Assumptions C14_span_object_refines.
 
@@ -146,14 +190,48 @@ Theorem C14_record_span : forall c o en st e p i s,
 Proof. exact record_span. Qed.
 Print Assumptions C14_record_span.
 
-(** ** The span list = the event's scope, root first.  Known finding F10 (while fx10 = false): events with an explicit
-    parent (a span, or explicitly none) are excluded, and refuted below. *)
-Theorem C14_span_list : forall o en st e p i,
-  (fx10 repo_cfg = false -> p = PCurrent) ->
+(** the two builds write the same lines for every history whose span field names never start with `log.` *)
+Theorem C14_log_feature_inert : forall lg o en ops,
+  Forall no_log_names ops -> run_ops (repo_cfg_of lg) o en ops = run_ops (repo_cfg_of false) o en ops.
+Proof. intros lg o en ops H. exact (log_feature_inert (repo_cfg_of false) lg o en ops init_state H). Qed.
+Print Assumptions C14_log_feature_inert.
+
+(** ** The span list = the event's scope, root first, and `span` = its leaf — for EVERY event: contextual, explicit parent,
+    explicit root (and the lifecycle records, whose parent is the span itself).  (Finding F10, repaired in /repo by 7519e35:
+    the list used to come from lookup_current().  No hypothesis: the translator finds the repaired shape, fx10 computes to
+    true; [C14_span_list_any_cfg] is the statement for either variant, the [C14_F10_refuted*] lemmas are the witnesses for
+    the unrepaired one.) *)
+Theorem C14_span_list : forall lg o en st e p i,
   o_list o = true -> spec_event_span st p = Some i ->
-  In (bs "spans", JArr (map span_obj (spec_scope st p))) (event_entries repo_cfg o en st e p).
-Proof. exact (record_span_list repo_cfg). Qed.
+  In (bs "spans", JArr (map span_obj (spec_scope st p))) (event_entries (repo_cfg_of lg) o en st e p).
+Proof.
+  intros lg o en st e p i. apply (record_span_list (repo_cfg_of lg)). intro H. discriminate H.
+Qed.
 Print Assumptions C14_span_list.
+
+Theorem C14_span_is_scope_leaf : forall lg o en st e p i s,
+  o_cur o = true -> spec_event_span st p = Some i -> find_span i (spans st) = Some s ->
+  In (bs "span", span_obj s) (event_entries (repo_cfg_of lg) o en st e p).
+Proof.
+  intros lg o en st e p i s Hc Hi Hs. apply record_span with (i := i); [exact Hc | | exact Hs].
+  rewrite event_span_spec; [exact Hi | intro H; discriminate H].
+Qed.
+Print Assumptions C14_span_is_scope_leaf.
+
+(** an event outside every span (explicit root, or contextual with nothing entered) has neither `span` nor `spans` *)
+Theorem C14_no_scope_no_span_keys : forall lg o en st e p,
+  event_ok o e -> spec_event_span st p = None ->
+  ~ In (bs "span") (map fst (event_entries (repo_cfg_of lg) o en st e p)) /\
+  ~ In (bs "spans") (map fst (event_entries (repo_cfg_of lg) o en st e p)).
+Proof. intros lg o en st e p. apply (record_no_scope (repo_cfg_of lg)). intro F. discriminate F. Qed.
+Print Assumptions C14_no_scope_no_span_keys.
+
+Theorem C14_span_list_any_cfg : forall c o en st e p i,
+  (fx10 c = false -> p = PCurrent) ->
+  o_list o = true -> spec_event_span st p = Some i ->
+  In (bs "spans", JArr (map span_obj (spec_scope st p))) (event_entries c o en st e p).
+Proof. exact record_span_list. Qed.
+Print Assumptions C14_span_list_any_cfg.
 
 Theorem C14_scope_root_to_leaf : forall st i,
   chain (spans st) (rev (scope_from_root st i)) /\
@@ -169,10 +247,55 @@ Proof. exact F10_refuted. Qed.
 Print Assumptions C14_F10_refuted.
 
 Theorem C14_F10_refuted_root : forall c, fx10 c = false ->
-  let st := state_after c [ONew 0 (bs "other") PRoot []; OEnter 0] in
+  let st := state_after c [ONew 0 (meta_named (bs "other")) PRoot []; OEnter 0] in
   event_span c st PRoot = Some 0 /\ spec_event_span st PRoot = None.
 Proof. exact F10_refuted_root. Qed.
 Print Assumptions C14_F10_refuted_root.
+
+Theorem C14_F10_refuted_lifecycle : forall c en, fx10 c = false ->
+  let st := state_after c f10_ops in
+  forall s, find_span 1 (spans st) = Some s ->
+  In (bs "spans", JArr []) (event_entries c f10_opts en st (life_event s "new" None) (PExplicit 1)) /\
+  In (bs "span", span_obj s) (event_entries c f10_opts en st (life_event s "new" None) (PExplicit 1)).
+Proof. exact F10_refuted_lifecycle. Qed.
+Print Assumptions C14_F10_refuted_lifecycle.
+
+(** ** Every record, not only those of events: the span-lifecycle records (with_span_events: NEW / ENTER / EXIT / CLOSE).
+    Each configured point writes exactly one record — an event with the span's own metadata, the span as explicit parent,
+    `message` = the point's name (+ time.busy / time.idle at close when a timer is configured); an unconfigured point
+    writes nothing; [C14_run_records] above covers these lines too (one object, unique keys, one line). *)
+Theorem C14_event_writes_one_record : forall c o en st e p,
+  emit c o en st (OEvent e p) = [render_line (event_record c o en st e p)] /\ next c st (OEvent e p) = st.
+Proof. exact event_writes_one_record. Qed.
+Print Assumptions C14_event_writes_one_record.
+
+Theorem C14_lifecycle_points : forall c o en st,
+  (forall i m p vals s, find_span i (spans (next c st (ONew i m p vals))) = Some s ->
+     emit c o en st (ONew i m p vals) =
+     if o_new o then [render_line (event_record c o en (next c st (ONew i m p vals)) (life_event s "new" None) (PExplicit i))] else []) /\
+  (forall i s, find_span i (spans st) = Some s ->
+     emit c o en st (OEnter i) =
+     (if o_enter o then [render_line (event_record c o en (next c st (OEnter i)) (life_event s "enter" None) (PExplicit i))] else []) /\
+     emit c o en st (OExit i) =
+     (if o_exit o then [render_line (event_record c o en (next c st (OExit i)) (life_event s "exit" None) (PExplicit i))] else []) /\
+     forall busy idle, emit c o en st (OClose i busy idle) =
+     (if o_close o then [render_line (event_record c o en st
+                           (life_event s "close" (if has_timer o then Some (busy, idle) else None)) (PExplicit i))] else [])).
+Proof. exact lifecycle_points. Qed.
+Print Assumptions C14_lifecycle_points.
+
+Theorem C14_lifecycle_record_content : forall c o en st i s msg t,
+  find_span i (spans st) = Some s ->
+  In (bs "message", JStr (bs msg)) (event_fields (life_event s msg t)) /\
+  (o_cur o = true -> In (bs "span", span_obj s) (event_entries c o en st (life_event s msg t) (PExplicit i))) /\
+  (o_level o = true -> In (bs "level", JStr (level_text (sm_level (sp_meta s)))) (event_entries c o en st (life_event s msg t) (PExplicit i))) /\
+  (o_target o = true -> In (bs "target", JStr (sm_target (sp_meta s))) (event_entries c o en st (life_event s msg t) (PExplicit i))).
+Proof. exact lifecycle_record_content. Qed.
+Print Assumptions C14_lifecycle_record_content.
+
+Theorem C14_lifecycle_fields_ok : forall o s msg t, event_ok o (life_event s msg t).
+Proof. exact life_event_ok. Qed.
+Print Assumptions C14_lifecycle_fields_ok.
 
 (** ** The model has the shape the translator reads off the source (key order, trailing newline, which Visit methods the
     two visitors override, where `r#` is stripped, root-first iteration); nothing was unrecognised. *)
@@ -182,6 +305,14 @@ Theorem C14_model_matches_source :
   gen_trailing_newline = true /\ gen_span_list_from_root = true /\
   gen_jsonvisitor_methods = model_jsonvisitor_methods /\
   gen_jsonvisitor_strip_raw = model_jsonvisitor_strip_raw /\
-  gen_serdemap_methods = model_serdemap_methods.
+  gen_serdemap_methods = model_serdemap_methods /\
+  gen_jsonvisitor_log_skip = model_jsonvisitor_log_skip /\
+  gen_lifecycle = model_lifecycle /\ gen_lifecycle_parent_is_span = true /\ gen_timing_off_without_time = true.
 Proof. exact gen_matches_model. Qed.
 Print Assumptions C14_model_matches_source.
+
+(** [render_string]'s escaping is serde_json's own ESCAPE table (of the version in the lock file, read from the cargo
+    registry on every run) on every byte value: the theorems about [render] are about the text serde_json writes *)
+Theorem C14_escape_table : forall b, b < 256 -> escape_byte b = escape_from_table gen_escape_table b.
+Proof. exact escape_table_matches. Qed.
+Print Assumptions C14_escape_table.
